@@ -191,15 +191,43 @@ fn format_list<T>(operands: &Vec<T>, separator: &str)
     return out;
 } // format_list()
 
+/// Creates a string representation of the operands of an And or Or operator.
+///
+/// An operand which is itself an Or is written between parentheses,
+/// `(a; b), c`, because the parser would otherwise group the goals
+/// differently. The same holds for an And inside an And. An And inside
+/// an Or needs no parentheses: `a, b; c`.
+///
+/// # Arguments
+/// * operands - a vector of Goals
+/// * separator - ", " or "; "
+/// * group_and - true if And operands need parentheses
+/// # Return
+/// * string representation of operands
+fn format_operands(operands: &Vec<Goal>, separator: &str,
+                   group_and: bool) -> String {
+    let mut out: Vec<String> = vec![];
+    for op in operands {
+        let group = match op {
+            Goal::OperatorGoal(Operator::Or(_)) => true,
+            Goal::OperatorGoal(Operator::And(_)) => group_and,
+            _ => false,
+        };
+        if group { out.push(format!("({})", op)); }
+        else { out.push(op.to_string()); }
+    }
+    return format_list(&out, separator);
+} // format_operands()
+
 // Display trait, to display operators.
 impl fmt::Display for Operator {
     fn fmt(&self, f: &mut fmt::Formatter) -> fmt::Result {
         match &self {
             Operator::And(goals) => {
-                write!(f, "{}", format_list(goals, ", "))
+                write!(f, "{}", format_operands(goals, ", ", true))
             },
             Operator::Or(goals) => {
-                write!(f, "{}", format_list(goals, "; "))
+                write!(f, "{}", format_operands(goals, "; ", false))
             },
             Operator::Time(goals) => {
                 write!(f, "time({})", goals[0])
